@@ -449,6 +449,16 @@ def rule_bound(rep, S):
         for env0, valid in cases:
             env = dict(env0)
             env.update({"cbegin()": B, "begin()": B, "cend()": E, "end()": E})
+            # locals declared before the guard (b = cbegin(), ...) take their value in this scenario
+            for st_ in ir.kids(ir.body(fn)):
+                if st_ is ifs[0]:
+                    break
+                if st_.get("kind") == "DeclStmt":
+                    for v_ in ir.kids(st_):
+                        if v_.get("kind") == "VarDecl" and ir.ekids(v_) and v_.get("name") not in env:
+                            val_ = eval_pos(ir.sx(ir.ekids(v_)[-1]), env)
+                            if val_ is not None:
+                                env[v_.get("name")] = val_
             v = eval_pos(cond, env)
             ncase += 1
             if v is None:
